@@ -154,6 +154,7 @@ func main() {
 	var jobs []*job
 	var frs []*FuncResult
 	recorded := loadLocals(*localsIn)
+	eng.recorded = recorded
 	namesNow := map[string][]string{}
 	vcs := map[string]*VC{}
 	for _, k := range keys {
